@@ -6,9 +6,15 @@
    the Go type assertion on its operand, and where control goes next.  VALUES are abstracted
    away: a conditional jump has BOTH successors, whatever is on the stack.
 
-   Run-time ERRORS of the VM (type errors, division by zero, "执行栈到达溢出线" at 1000 slots,
-   nesting deeper than 20, the operation budget, `ld.fs` finding too few values, ...) set
-   ctx.Error and end the run; they are ordinary terminations, never stuck states.  They are
+   STUCK states are the structural failures the property names.  Since commit e33ec38 the VM
+   answers most of them with the error "E3:无效的表达式" (before: index out of range [-1]); a
+   missing detail span is papered over with a fabricated empty span; a wrong operand type is
+   still a failed Go type assertion.  The compiled code is ill-formed in every one of these
+   cases, whatever the VM does about it.
+
+   Run-time ERRORS that depend on VALUES (type errors, division by zero, "执行栈到达溢出线" at
+   1000 slots, nesting deeper than 20, the operation budget, ...) set ctx.Error and end the
+   run; they are ordinary terminations, never stuck states.  They are
    modelled by over-approximation: the successor list contains every state in which the run CAN
    continue, and a run may stop after any instruction.  Safety ("no reachable state is stuck")
    of the over-approximation implies safety of every real run. *)
@@ -60,19 +66,19 @@ Close Scope string_scope.
 
 (* ---------------------------------------------------------------- shapes *)
 Inductive reason :=
-| Underflow        (* stack[e.top-1] with e.top = 0 *)
+| Underflow        (* stackPop / store peek / ld.fs with too few values: E3 (was: stack[-1]) *)
 | BadJump          (* opIndex leaves [0, len] *)
 | BadOperand       (* code.Value.(T) fails: operand nil / of another Go type / negative count *)
-| BlockUnderflow   (* blockStack[blockIndex-1] / fstrBlockStack[fstrBlockIndex-1] with index 0 *)
+| BlockUnderflow   (* block.pop / fstr.block.pop with no open block: E3 (was: blockStack[-1]) *)
 | BlockMismatch    (* two paths reach one pc with different numbers of open blocks (checker only) *)
-| NoDiceState      (* diceStates[diceStateIndex] with index -1 *)
-| NoDetail         (* details[len(details)-1] with no span *)
+| NoDiceState      (* dice.set* / dice with diceStateIndex = -1: E3 (was: diceStates[-1]) *)
+| NoDetail         (* lastDetail() with no span: the VM now fabricates an empty span (was: details[-1]) *)
 | NoLastPop.       (* push.last before any pop (the VM diagnoses this one itself) *)
 
 (* straight-line instruction: requirements, then pops, then pushes / state updates *)
 Record eff := {
   e_pops : nat;
-  e_soft : bool;       (* too few operands is a VM error (ld.fs checks), not a panic *)
+  e_quiet : bool;      (* operands are read without stackPop (ld.fs): lastPop is not touched *)
   e_push : nat;        (* 0 or 1 *)
   e_need_dice : bool;  (* indexes diceStates[diceStateIndex] *)
   e_need_det : bool;   (* indexes details[len(details)-1] *)
@@ -83,13 +89,12 @@ Record eff := {
 }.
 
 Definition E (pops push : nat) : eff :=
-  {| e_pops := pops; e_soft := false; e_push := push; e_need_dice := false; e_need_det := false;
+  {| e_pops := pops; e_quiet := false; e_push := push; e_need_dice := false; e_need_det := false;
      e_need_last := false; e_dice_up := 0; e_dice_down := 0; e_det_up := 0 |}.
 
 Inductive shape :=
 | SSimple (e : eff)
 | SPeek                      (* store / store.local: reads stack[top-1], leaves it *)
-| SDefExpr                   (* push.def_expr *)
 | SJmp (off : Z)
 | SJcond (off : Z) (dup : bool)   (* je / jne (dup = false), je.dup (dup = true) *)
 | SHalt                      (* halt, ret *)
@@ -103,23 +108,23 @@ Definition with_count (o : operand) (k : nat -> shape) : shape :=
 Definition with_str (o : operand) (s : shape) : shape :=
   match o with PStr => s | _ => SBadOperand end.
 
-Definition set_soft (e : eff) : eff :=
-  {| e_pops := e_pops e; e_soft := true; e_push := e_push e; e_need_dice := e_need_dice e; e_need_det := e_need_det e;
+Definition set_quiet (e : eff) : eff :=
+  {| e_pops := e_pops e; e_quiet := true; e_push := e_push e; e_need_dice := e_need_dice e; e_need_det := e_need_det e;
      e_need_last := e_need_last e; e_dice_up := e_dice_up e; e_dice_down := e_dice_down e; e_det_up := e_det_up e |}.
 Definition set_dice (e : eff) (down : nat) : eff :=
-  {| e_pops := e_pops e; e_soft := e_soft e; e_push := e_push e; e_need_dice := true; e_need_det := e_need_det e;
+  {| e_pops := e_pops e; e_quiet := e_quiet e; e_push := e_push e; e_need_dice := true; e_need_det := e_need_det e;
      e_need_last := e_need_last e; e_dice_up := e_dice_up e; e_dice_down := down; e_det_up := e_det_up e |}.
 Definition set_det (e : eff) : eff :=
-  {| e_pops := e_pops e; e_soft := e_soft e; e_push := e_push e; e_need_dice := e_need_dice e; e_need_det := true;
+  {| e_pops := e_pops e; e_quiet := e_quiet e; e_push := e_push e; e_need_dice := e_need_dice e; e_need_det := true;
      e_need_last := e_need_last e; e_dice_up := e_dice_up e; e_dice_down := e_dice_down e; e_det_up := e_det_up e |}.
 Definition set_last (e : eff) : eff :=
-  {| e_pops := e_pops e; e_soft := e_soft e; e_push := e_push e; e_need_dice := e_need_dice e; e_need_det := e_need_det e;
+  {| e_pops := e_pops e; e_quiet := e_quiet e; e_push := e_push e; e_need_dice := e_need_dice e; e_need_det := e_need_det e;
      e_need_last := true; e_dice_up := e_dice_up e; e_dice_down := e_dice_down e; e_det_up := e_det_up e |}.
 Definition dice_up (e : eff) : eff :=
-  {| e_pops := e_pops e; e_soft := e_soft e; e_push := e_push e; e_need_dice := e_need_dice e; e_need_det := e_need_det e;
+  {| e_pops := e_pops e; e_quiet := e_quiet e; e_push := e_push e; e_need_dice := e_need_dice e; e_need_det := e_need_det e;
      e_need_last := e_need_last e; e_dice_up := 1; e_dice_down := e_dice_down e; e_det_up := e_det_up e |}.
 Definition det_up (e : eff) : eff :=
-  {| e_pops := e_pops e; e_soft := e_soft e; e_push := e_push e; e_need_dice := e_need_dice e; e_need_det := e_need_det e;
+  {| e_pops := e_pops e; e_quiet := e_quiet e; e_push := e_push e; e_need_dice := e_need_dice e; e_need_det := e_need_det e;
      e_need_last := e_need_last e; e_dice_up := e_dice_up e; e_dice_down := e_dice_down e; e_det_up := 1 |}.
 
 (* One line per `case` of the switch in evaluate(); opcodes without a case fall through the
@@ -135,8 +140,8 @@ Definition shape_of (t : N) (o : operand) : shape :=
   | 6 | 10 => match o with PFn => SSimple (E 0 1) | _ => SBadOperand end (* push.computed / push.func: code.Value.( *VMValue) *)
   | 7 | 8 => SSimple (E 0 1)                                        (* push.null, push.this *)
   | 11 => SSimple (set_last (E 0 1))                                (* push.last *)
-  | 12 => SDefExpr                                                  (* push.def_expr *)
-  | 13 => with_count o (fun n => SSimple (set_soft (E n 1)))        (* ld.fs n: own bounds check, then top -= n, push *)
+  | 12 => SSimple (E 0 1)                                           (* push.def_expr: push; the span rewrite is skipped when there is no parser, no span or no dice state *)
+  | 13 => with_count o (fun n => SSimple (set_quiet (E n 1)))        (* ld.fs n: reads stack[top-n..top) (own bounds check, same E3 error), top -= n, push *)
   | 14 | 16 => with_str o (SSimple (E 0 1))                         (* ld, ld.raw *)
   | 15 => with_str o (SSimple (set_det (E 0 1)))                    (* ld.d: details[len-1] *)
   | 17 | 19 => with_str o SPeek                                     (* store, store.local: e.stack[e.top-1] *)
@@ -210,21 +215,15 @@ Definition exec (len : nat) (sh : shape) (s : sstate) : outcome :=
   | SBadOperand => Stuck BadOperand
   | SSimple e =>
     if e_need_dice e && (dice s =? 0) then Stuck NoDiceState
-    else if h s <? e_pops e then (if e_soft e then Next [] else Stuck Underflow)
+    else if h s <? e_pops e then Stuck Underflow
     else if e_need_det e && (dets s =? 0) then Stuck NoDetail
     else if e_need_last e && negb (lastpop s) then Stuck NoLastPop
     else Next [ {| pc := nxt; h := h s - e_pops e + e_push e; blocks := blocks s; fblocks := fblocks s;
                    dice := dice s + e_dice_up e - e_dice_down e; dets := dets s + e_det_up e;
-                   lastpop := lastpop s || ((0 <? e_pops e) && negb (e_soft e)) |} ]
+                   lastpop := lastpop s || ((0 <? e_pops e) && negb (e_quiet e)) |} ]
   | SPeek => if h s =? 0 then Stuck Underflow
              else Next [ {| pc := nxt; h := h s; blocks := blocks s; fblocks := fblocks s; dice := dice s;
                             dets := dets s; lastpop := lastpop s |} ]
-  | SDefExpr =>
-    (* push; then, unless there is no parser (precompiled body) or no span, the last span is
-       rewritten from diceStates[diceStateIndex] (skipped only for 优势/劣势 texts) *)
-    if (0 <? dets s) && (dice s =? 0) then Stuck NoDiceState
-    else Next [ {| pc := nxt; h := S (h s); blocks := blocks s; fblocks := fblocks s; dice := dice s;
-                   dets := dets s; lastpop := lastpop s |} ]
   | SJmp off =>
     match jump_target len (pc s) off with
     | None => Stuck BadJump
